@@ -1,2 +1,61 @@
-(* placeholder while the tie is being validated *)
-From V.C06 Require Import Model.
+(* C06 — the property, clause by clause.  Only statements here; every proof is `exact lemma`. *)
+From Coq Require Import List String ZArith Bool Arith.
+From V.C06 Require Import Model Spec Proofs.
+Import ListNotations.
+
+(* FRAME (any depth, any route): a write — element store by int or string key, append, unset,
+   in-place sort, push, pop — on the array object X changes the tree of no value from which X is
+   not reachable.  Hypotheses: X has no reference-bound cell (no `&` was taken on an element),
+   its cells exist.  This is what makes "not observable through the other name" true whenever the
+   two names denote different array objects, shared cells or not. *)
+Theorem write_frame : forall n h X m v, noref h X -> bounded h X ->
+  (forall x, In x (reach n h v) -> x < next h /\ x <> X) ->
+  unchanged (obs n h v) (obs n (apply_mut h X m) v).
+Proof. exact write_frame_u. Qed.
+Print Assumptions write_frame.
+
+(* depth 1: two distinct array objects that share any of their cells (a copy and its original
+   share all of them) are independent under every write *)
+Theorem frame_spine : forall n h a b m, flat_array h a -> flat_array h b -> a <> b ->
+  (forall c, In c (spine h b) -> c <> a) ->
+  unchanged (obs n h (VArr b)) (obs n (apply_mut h a m) (VArr b)).
+Proof. exact frame_spine_u. Qed.
+Print Assumptions frame_spine.
+
+(* copy by CloneArrayValue — the one copy every route performs: assignment, by-value parameter,
+   returned value (SetVariableValue), property store / clone (ObjectValue.SetProperty), element
+   store and list literal (IndexExpression.SetValue, node/array.go after 6d28fe1) — then any write
+   through either name: the other name's tree is unchanged, for every depth-1 array, every key,
+   every value *)
+Theorem copy_then_mutate : forall n h a m, flat_array h a ->
+  let h1 := fst (clone_array h a) in
+  let b := snd (clone_array h a) in
+  obs n h1 (VArr b) = obs n h1 (VArr a) /\
+  obs n (apply_mut h1 b m) (VArr a) = obs n h1 (VArr a) /\
+  obs n (apply_mut h1 a m) (VArr b) = obs n h1 (VArr b).
+Proof. exact copy_then_mutate_l. Qed.
+Print Assumptions copy_then_mutate.
+
+(* the script-level write statements on a depth-1 array are those writes *)
+Theorem statement_is_write : forall h X path act m,
+  mut_of path act = Some m -> mutate_at h (VArr X) path act = apply_mut h X m.
+Proof. exact mutate_at_is_apply_mut. Qed.
+
+(* a list literal of scalars is a depth-1 array in the sense of the hypotheses above *)
+Theorem literal_is_flat : forall h vs, (forall v, In v vs -> scalar v = true) ->
+  let (h1, a) := new_array h vs in flat_array h1 a.
+Proof. exact new_array_flat. Qed.
+Print Assumptions literal_is_flat.
+
+(* "unless a reference (&) was taken explicitly": a store to a reference-bound slot is written
+   into the shared cell, so every array holding that cell sees it *)
+Theorem ref_writes_through : forall h X j n v c,
+  nth_error (spine h X) j = Some c -> cref (cell_at h c) = true ->
+  cval (cell_at (store_slot h X j n v) c) = v /\ spine (store_slot h X j n v) X = spine h X.
+Proof. exact ref_store_in_place. Qed.
+Print Assumptions ref_writes_through.
+
+(* Nested shapes (depth >= 2): the full statement
+     forall shape route m, observe_other (mutate m (copy route h)) = observe_other (copy route h)
+   is FALSE of the code: inner arrays are shared pointers mutated in place (no copy-on-write);
+   Examples.nested_store_leaks_refuted is the witness; KNOWN_FINDINGS nested:mutation=*. *)
